@@ -17,6 +17,7 @@ package main
 //   lemma <name> [{props}]: <expr>   proved on its own (all free names quantified with `forall`)
 
 import (
+	"strconv"
 	"fmt"
 	"os"
 	"strings"
@@ -88,7 +89,7 @@ type ContractFile struct {
 
 var clauseKeywords = map[string]bool{"func": true, "props": true, "requires": true, "ensures": true, "decreases": true,
 	"loop": true, "pure": true, "trusted": true, "maypanic": true, "nosafety": true, "inline": true, "modifies": true,
-	"cover": true, "assumes": true, "spec": true, "axiom": true, "lemma": true, "opaque": true, "noframe": true, "readonly": true, "opaque_strings": true, "string_len_bound": true}
+	"cover": true, "assumes": true, "spec": true, "axiom": true, "lemma": true, "opaque": true, "noframe": true, "readonly": true, "opaque_strings": true, "string_len_bound": true, "byte_len": true, "readonly_model": true}
 
 func ParseContractFile(path, pkg string) (*ContractFile, error) {
 	data, err := os.ReadFile(path)
@@ -172,7 +173,7 @@ func ParseContractFile(path, pkg string) (*ContractFile, error) {
 				cur.Loops[ord] = ls
 			}
 			ls.Invariants = append(ls.Invariants, cl)
-		case "pure", "trusted", "maypanic", "nosafety", "inline", "noframe", "readonly", "opaque_strings", "string_len_bound":
+		case "pure", "trusted", "maypanic", "nosafety", "inline", "noframe", "readonly", "opaque_strings", "string_len_bound", "byte_len", "readonly_model":
 			if cur == nil {
 				return nil, fail(fmt.Errorf("%s outside func", kw))
 			}
@@ -418,6 +419,15 @@ func clex(s string) ([]ctok, error) {
 						sb.WriteByte('\\')
 					case '"':
 						sb.WriteByte('"')
+					case 'u':
+						if j+4 < len(s) {
+							if n, err := strconv.ParseUint(s[j+1:j+5], 16, 32); err == nil {
+								sb.WriteRune(rune(n))
+								j += 4
+								break
+							}
+						}
+						sb.WriteString("\\u")
 					default:
 						sb.WriteByte('\\')
 						sb.WriteByte(s[j])
